@@ -230,7 +230,7 @@ func (r *runner) note(s string) {
 	r.mu.Unlock()
 }
 
-var frameRe = regexp.MustCompile(`(?m)^(luahelper-lsp/[^\s(]+(?:\([^)]*\))?[^\s(]*)\(.*\n\t/repo/luahelper-lsp/([^\s:]+\.go):(\d+)`)
+var frameRe = regexp.MustCompile(`(?m)^(luahelper-lsp/[^\s(]+(?:\([^)]*\))?[^\s(]*)\(.*\n\t/\S*?luahelper-lsp/([^\s:]+\.go):(\d+)`)
 
 // crashSignature reduces a Go crash dump to {kind, first repository frame}.
 func crashSignature(stderr string) (sig string, excerpt string) {
